@@ -127,6 +127,76 @@ func histories(cf cfgSpec, gv *genesisVariant, thorough bool) []history {
 			add("revoke-pillar", cat(rep(M, 3), []ops.Op{{K: "c05-revoke", A: 11, S: g.Pillar2Name}}, tail(3)))
 		}
 	}
+	if thorough {
+		hs = append(hs, systematic(cf, alt)...)
+	}
+	return hs
+}
+
+// change is one weight-moving event: operations at offsets (in momentums) from its position.
+type change struct {
+	Name string
+	At   map[int][]ops.Op
+}
+
+var changes = []change{
+	{"U1->pillar2", map[int][]ops.Op{0: {{K: "Call", S: "delegate", A: 0, B: 1}}}},
+	{"U1->pillar3", map[int][]ops.Op{0: {{K: "Call", S: "delegate", A: 0, B: 2}}}},
+	{"U1-undelegates", map[int][]ops.Op{0: {{K: "Call", S: "undelegate", A: 0}}}},
+	{"U2-undelegates", map[int][]ops.Op{0: {{K: "Call", S: "undelegate", A: 1}}}},
+	{"U4->pillar1", map[int][]ops.Op{0: {{K: "Call", S: "delegate", A: 3, B: 0}}}},
+	{"Pillar6key(16000)->pillar2", map[int][]ops.Op{0: {{K: "Call", S: "delegate", A: 7, B: 1}}}},
+	{"U1-sends-11500-to-U3,received-2-later", map[int][]ops.Op{0: {{K: "T", A: 0, B: 2, V: 11500 * g.Zexp}}, 2: {{K: "R", A: 2}}}},
+	{"U2-sends-7900-to-U4,received-1-later", map[int][]ops.Op{0: {{K: "T", A: 1, B: 3, V: 7900 * g.Zexp}}, 1: {{K: "R", A: 3}}}},
+}
+
+// systematic: every change at every slot position of the first two ticks (long ticks: around the tick boundaries only),
+// and every ordered pair of distinct changes at the positions (last slot of tick 0, first slot of tick 1).
+func systematic(cf cfgSpec, alt []ops.Op) []history {
+	n := cf.NodeCount
+	var positions []int
+	if n <= 4 {
+		for p := 0; p < 2*n; p++ {
+			positions = append(positions, p)
+		}
+	} else {
+		positions = []int{0, n - 2, n - 1, n, 2*n - 2, 2*n - 1}
+	}
+	mk := func(name string, at map[int][]ops.Op, last int) history {
+		var o []ops.Op
+		for i := 0; i < last+3*n+2; i++ {
+			o = append(o, at[i]...)
+			o = append(o, M)
+		}
+		return history{name, o, alt}
+	}
+	var hs []history
+	for _, ch := range changes {
+		for _, p := range positions {
+			at := map[int][]ops.Op{}
+			for off, o := range ch.At {
+				at[p+off] = append(at[p+off], o...)
+			}
+			hs = append(hs, mk(fmt.Sprintf("%s@%d", ch.Name, p), at, p+2))
+		}
+	}
+	if n <= 4 {
+		for _, c1 := range changes {
+			for _, c2 := range changes {
+				if c1.Name == c2.Name {
+					continue
+				}
+				at := map[int][]ops.Op{}
+				for off, o := range c1.At {
+					at[n-2+off] = append(at[n-2+off], o...)
+				}
+				for off, o := range c2.At {
+					at[n-1+off] = append(at[n-1+off], o...)
+				}
+				hs = append(hs, mk(fmt.Sprintf("%s@%d+%s@%d", c1.Name, n-2, c2.Name, n-1), at, n+2))
+			}
+		}
+	}
 	return hs
 }
 
@@ -155,9 +225,15 @@ func newNode(c *xs.Ctx, gv *genesisVariant, pillars bool) *vnode.Node {
 func strictOp(n *vnode.Node, o ops.Op) {
 	out := ops.Apply(n, o)
 	if out != "ok" && !strings.HasPrefix(out, "m1/") {
+		if o.K != "M" && (out == "nopending" || strings.HasPrefix(out, "err:")) {
+			refusedOps++ // refused at send time (e.g. nothing to receive): the history simply lacks this operation
+			return
+		}
 		panic(fmt.Sprintf("history op %v failed: %s", o, out))
 	}
 }
+
+var refusedOps int
 
 // produce runs a history on a live producer, snapshotting the registry after every momentum.
 func produce(c *xs.Ctx, cf cfgSpec, gv *genesisVariant, hops []ops.Op) (*built, *vnode.Node) {
@@ -266,12 +342,29 @@ func firstDiff(a, b []string) int {
 	return -1
 }
 
+// refusal is raised when a node refuses a chain made by the real, elected producers: an observation about the code under
+// test (the follower derived another schedule), reported as a violation by guard, not a harness failure.
+type refusal struct{ msg string }
+
+func guard(r *xs.Result, key string, replay interface{}, f func()) {
+	defer func() {
+		if p := recover(); p != nil {
+			if rf, ok := p.(refusal); ok {
+				r.Violate(key, rf.msg, replay)
+				return
+			}
+			panic(p)
+		}
+	}()
+	f()
+}
+
 func feed(n *vnode.Node, chain []*nom.DetailedMomentum) {
 	if len(chain) == 0 {
 		return
 	}
 	if idx, err, pan := n.InsertChain(vnode.CloneBatch(chain)); err != nil || pan != nil {
-		panic(fmt.Sprintf("valid chain refused at %d: %v %v", idx, err, pan))
+		panic(refusal{fmt.Sprintf("a fresh follower refuses the chain made by the elected producers at index %d: err=%v panic=%v", idx, err, pan)})
 	}
 }
 
@@ -286,9 +379,29 @@ func runSchedule(c *xs.Ctx, r *xs.Result, cfi int, gv *genesisVariant, h history
 	r.Count("schedule_histories", 1)
 	r.Count("schedule_momentums", int64(len(b.chain)))
 	r.Count("schedule_weight_order_changes", int64(b.changes))
+	for _, s := range rc.snaps {
+		na := 0
+		for _, p := range s.Pillars {
+			if p.Active {
+				na++
+			}
+		}
+		r.Add("schedule_active_pillar_counts", fmt.Sprint(na))
+	}
 	r.Add("schedule_configurations", cf.Name+"/"+gv.Name)
 	for t := uint64(0); t <= upTo; t++ {
 		r.Add("schedules", strings.Join(want[int(t)*cf.NodeCount:int(t+1)*cf.NodeCount], ","))
+	}
+	// tryFeed delivers part of the producer's chain; a refusal means the node derived another schedule than the producer
+	tryFeed := func(variant string, n *vnode.Node, chain []*nom.DetailedMomentum) bool {
+		idx, err, pan := n.InsertChain(vnode.CloneBatch(chain))
+		if err == nil && pan == nil && n.Frontier().Hash == chain[len(chain)-1].Momentum.Hash {
+			return true
+		}
+		r.Violate(fmt.Sprintf("C05:schedule:%s:%s:refuses-the-elected-producers-chain", variant, cf.Name),
+			fmt.Sprintf("config %s, genesis %s, history %q: %s refuses the chain made by the elected producers (batch of %d momentums starting at height %d): index %d, err=%v, panic=%v, frontier height %d",
+				cf.Name, gv.Name, h.Name, variant, len(chain), chain[0].Momentum.Height, idx, err, pan, n.Height()), cs)
+		return false
 	}
 	check := func(variant string, got []string, ref []string, act [][]types.Address) bool {
 		r.Count("schedule_comparisons", 1)
@@ -333,13 +446,14 @@ func runSchedule(c *xs.Ctx, r *xs.Result, cfi int, gv *genesisVariant, h history
 	H := uint64(len(b.chain)) + 1
 	// 2. follower fed in one batch; ticks queried in descending order (different cache fill order)
 	f := newNode(c, gv, false)
-	feed(f, b.chain)
-	check("follower-one-batch", observe(f, rc, upTo, true), want, active)
-	// 3. restarted with the consensus cache kept, then with the cache wiped
-	f.Restart()
-	check("follower-restarted-cache-kept", observe(f, rc, upTo, false), want, active)
-	f.RestartWipedConsensus()
-	check("follower-restarted-cache-wiped", observe(f, rc, upTo, false), want, active)
+	if tryFeed("follower-one-batch", f, b.chain) {
+		check("follower-one-batch", observe(f, rc, upTo, true), want, active)
+		// 3. restarted with the consensus cache kept, then with the cache wiped
+		f.Restart()
+		check("follower-restarted-cache-kept", observe(f, rc, upTo, false), want, active)
+		f.RestartWipedConsensus()
+		check("follower-restarted-cache-wiped", observe(f, rc, upTo, false), want, active)
+	}
 	f.Destroy()
 	// 4. follower fed momentum by momentum, schedule compared at every prefix (future ticks are elected from the frontier)
 	f = newNode(c, gv, false)
@@ -348,7 +462,9 @@ func runSchedule(c *xs.Ctx, r *xs.Result, cfi int, gv *genesisVariant, h history
 		step = 7 // long chains: compare at every 7th prefix and at the end
 	}
 	for i, d := range b.chain {
-		feed(f, []*nom.DetailedMomentum{d})
+		if !tryFeed("follower-one-by-one", f, []*nom.DetailedMomentum{d}) {
+			break
+		}
 		h := uint64(i) + 2
 		if int(h)%step != 0 && h != H {
 			continue
@@ -370,16 +486,15 @@ func runSchedule(c *xs.Ctx, r *xs.Result, cfi int, gv *genesisVariant, h history
 			panic("alt history must be shorter than the main one and inside the rollback window")
 		}
 		n := newNode(c, gv, false)
-		feed(n, ab.chain)
-		aw, aa := refObs(ab.rc, ab.rc.lastTick())
-		check("follower-on-competing-branch", observe(n, ab.rc, ab.rc.lastTick(), false), aw, aa)
-		feed(n, b.chain)
-		if n.Frontier().Hash != b.chain[len(b.chain)-1].Momentum.Hash {
-			panic("reorganisation to the longer chain did not happen")
+		if tryFeed("follower-on-competing-branch", n, ab.chain) {
+			aw, aa := refObs(ab.rc, ab.rc.lastTick())
+			check("follower-on-competing-branch", observe(n, ab.rc, ab.rc.lastTick(), false), aw, aa)
+			if tryFeed("follower-after-reorg", n, b.chain) {
+				check("follower-after-reorg", observe(n, rc, upTo, false), want, active)
+				n.Restart()
+				check("follower-after-reorg-restarted", observe(n, rc, upTo, false), want, active)
+			}
 		}
-		check("follower-after-reorg", observe(n, rc, upTo, false), want, active)
-		n.Restart()
-		check("follower-after-reorg-restarted", observe(n, rc, upTo, false), want, active)
 		n.Destroy()
 		r.Count("schedule_reorgs", 1)
 	}
